@@ -228,7 +228,69 @@ def check_get_block(chunks_by_attempt, tmpdir):
     return None
 
 
+def check_failover_targets(kind, nurls):
+    '''with several URLs every attempt of a call - single, vector and block streaming alike - goes to the daemon that is
+    current at that attempt: the first daemon is down for good, the call must come back with the answer of another one and
+    must have asked the URLs round-robin'''
+    import os
+    import tempfile
+    import shutil
+    urls = [f'http://u:p@h{i}:8332/' for i in range(nurls)]
+    d = Dm.Daemon(Coin(), ','.join(urls), init_retry=0.25, max_retry=1.0)
+    asked = []
+
+    class PerUrl:
+        def _reply(self, url, payload):
+            host = url.split('@')[1].split(':')[0]
+            asked.append(host)
+            if len(asked) > 40:
+                raise RuntimeError('the call keeps retrying the daemon that is down')
+            if host == 'h0':
+                raise aiohttp.ClientConnectionError('down')
+            if kind == 'get_block':
+                return FakeResp('application/octet-stream', chunks=[b'block-of-' + host.encode()])
+            if isinstance(payload, list):
+                return FakeResp('application/json', body=[{'result': host, 'error': None, 'id': r['id']} for r in payload])
+            return FakeResp('application/json', body={'result': host, 'error': None, 'id': payload['id']})
+
+        def post(self, url, data=None):
+            return self._reply(url, json.loads(data))
+
+        def get(self, url):
+            return self._reply(url, None)
+    d.session = PerUrl()
+
+    async def fake_sleep(t):
+        pass
+    Dm.asyncio.sleep = fake_sleep
+    tmp = tempfile.mkdtemp(prefix='verif-daemon-')
+    try:
+        async def go():
+            try:
+                if kind == 'get_block':
+                    n = await d.get_block('ab' * 32, os.path.join(tmp, 'blk'))
+                    return open(os.path.join(tmp, 'blk'), 'rb').read()[-2:].decode(), n
+                if kind == 'vector':
+                    return (await d._send_vector('m', iter([(1,), (2,)])))[0], None
+                return await d._send_single('m'), None
+            except RuntimeError as e:
+                return 'runaway: ' + str(e), None
+        got, _n = asyncio.run(go())
+    finally:
+        shutil.rmtree(tmp, ignore_errors=True)
+    if got != 'h1':
+        return f'{kind} with {nurls} URLs, first daemon down: the call ended with {got!r} after asking {asked[:12]}..., expected the answer of h1'
+    if d.current_url() != urls[1]:
+        return f'{kind}: answer came from h1 but current_url() is {d.current_url()!r}'
+    return None
+
+
 def search_vector_and_file():
+    for kind in ('single', 'vector', 'get_block'):
+        for nurls in (2, 3):
+            bad = check_failover_targets(kind, nurls)
+            if bad:
+                return 1, {'call': kind, 'urls': nurls, 'first_daemon': 'down'}, bad
     import tempfile
     import shutil
     tried = 0
